@@ -254,8 +254,16 @@ func deriveInput(rc *RunCtx, x string, hot []int, allow contentFaults) (string, 
 		return simrt.Choose(n)
 	}
 	for i := 0; i < nf; i++ {
-		kind := simrt.Choose(8)
+		kind := simrt.Choose(9)
 		switch {
+		case kind == 8 && allow.earlyEOF && len(hot) > 0:
+			// the input ends exactly at a token boundary of the undamaged document (right after a
+			// sign, an opening quote or bracket, a keyword): the commonest way for a stream to end
+			// early, so it gets a slot of its own besides the arbitrary cut below
+			if k := hot[simrt.Choose(len(hot))]; k < len(d) {
+				d = d[:k]
+				fired = append(fired, "early-eof")
+			}
 		case kind == 7 && allow.earlyEOF && allow.corrupt:
 			// a transfer that went bad and then broke off: one damaged byte, a little more text,
 			// and the end in the middle of a multi-byte character
